@@ -269,23 +269,32 @@ class ExhaustiveSource(RandomSource):
         return float(min)
 
 
-def enumerate_scripts(fn: Callable[[RandomSource], Any], limit: int = 200000):
-    """Run fn under every possible sequence of randint outcomes (DFS). Yields (script, result)."""
-    stack: list[list[int]] = [[]]
+def enumerate_scripts(fn: Callable[[RandomSource], Any], limit: int = 200000, lift: bool = False):
+    """Run fn under every possible sequence of randint outcomes (DFS). Yields (script, result).
+
+    The enumeration is driven by the ranges the IMPLEMENTATION asks for.  With `lift`, every yielded
+    draw d is replaced by d + m*width (width = the implementation's range at that draw, m a small
+    deterministic multiplier): the same outcome for a source that reduces modulo that width, but a
+    different one for a model whose range at that point is not the implementation's -- so the
+    comparison also covers the ranges, not only the outcomes."""
+    stack: list[tuple[list[int], list[int]]] = [([], [])]
     n = 0
     while stack:
-        prefix = stack.pop()
+        prefix, widths = stack.pop()
         try:
             res = fn(ExhaustiveSource(prefix))
         except NeedMore as nm:
             width = nm.hi - nm.lo + 1
             for d in reversed(range(width)):
-                stack.append(prefix + [d])
+                stack.append((prefix + [d], widths + [width]))
             continue
         n += 1
         if n > limit:
             raise InfraError("enumerate_scripts limit exceeded")
-        yield prefix, res
+        if lift:
+            yield [d + w * ((3 * i + n + d) % 4) for i, (d, w) in enumerate(zip(prefix, widths))], res
+        else:
+            yield prefix, res
 
 
 # ----------------------------------------------------------------------------------------
